@@ -172,6 +172,30 @@ class PathResult:
         self.env = None
 
 
+def _subst_generics(term, callee, fn):
+    """the callee's body is generic: names of its own type parameters inside call paths (`size_of::<T>`) are replaced by the type
+    arguments of this call (only the callee's own, non-parent generics: the trailing ones of the argument list)"""
+    import re
+    gens = [g["name"] for g in (callee.j.get("generics") or []) if g.get("kind") == "type"]
+    r_ = fn.get("resolved") if isinstance(fn.get("resolved"), dict) else fn
+    args = [a for a in (r_.get("args") or fn.get("args") or []) if a.get("k") not in ("region", "const")]
+    if not gens or len(args) < len(gens):
+        return term
+    args = args[len(args) - len(gens):]
+    mp = {g: a.get("s", g) for g, a in zip(gens, args) if a.get("s") and a.get("s") != g}
+    if not mp:
+        return term
+    pat = re.compile(r"(?<![A-Za-z0-9_])(%s)(?![A-Za-z0-9_])" % "|".join(re.escape(g) for g in mp))
+
+    def rec(t):
+        if isinstance(t, tuple):
+            if t and t[0] == "call" and isinstance(t[1], str):
+                return ("call", pat.sub(lambda m: mp[m.group(1)], t[1])) + tuple(rec(x) for x in t[2:])
+            return tuple(rec(x) for x in t)
+        return t
+    return rec(term)
+
+
 class TermEval:
     def __init__(self, facts, cg=None, inline=True, inline_depth=4):
         self.facts = facts
@@ -180,6 +204,8 @@ class TermEval:
         self.inline_depth = inline_depth
         self._ctr = 0
         self._inl_cache = {}
+        self.no_inline = set()      # def paths that stay call terms even when inlining (named primitives a rule looks for)
+        self.inline_stores = False  # also inline single-path callees that store (their stores join the caller's, in caller terms)
 
     def fresh(self, tag):
         self._ctr += 1
@@ -396,8 +422,12 @@ class TermEval:
                 else:
                     full = "<indirect:%s>" % (self.operand(env, t["func"], body),)
                 val = None
-                if self.inline and c is not None and c.target is not None and depth < self.inline_depth:
-                    val = self.try_inline(c.target, argt, depth + 1)
+                if self.inline and c is not None and c.target is not None and depth < self.inline_depth and c.target.path not in self.no_inline:
+                    val = self.try_inline(c.target, argt, depth + 1, res)
+                    if val is not None and fn:
+                        val = _subst_generics(val, c.target, fn)
+                if val is None and full and full.split("::<")[0] in ("std::ptr::eq", "std::ptr::addr_eq", "core::ptr::eq") and len(argt) == 2:
+                    val = ("cmp", "Eq", strip_refs(argt[0]), strip_refs(argt[1]))      # address comparison = `==` on raw pointers
                 if val is None:
                     val = ("call", full, argt)
                 res.calls.append((bb, full, argt, val, c))
@@ -410,7 +440,7 @@ class TermEval:
         res.env = env
         return res
 
-    def try_inline(self, callee, argt, depth):
+    def try_inline(self, callee, argt, depth, caller_res=None):
         """inline a crate-local callee that has exactly one normal path, no stores and only inlinable calls
         (getters, constructors, wrappers)"""
         key = callee.path
@@ -426,7 +456,9 @@ class TermEval:
             return None
         r = self.eval_path(callee, info, list(argt), depth)
         if r.stores:
-            return None
+            if not (self.inline_stores and caller_res is not None):
+                return None
+            caller_res.stores.extend(r.stores)
         # calls inside must all have been inlined or be pure externals; keep the term either way
         return r.ret
 
